@@ -9,6 +9,9 @@ mkdir -p /verif/bin /verif/evidence /verif/replay /verif/logs
 build() {
   go build -tags verif -o /verif/bin/gw ./cmd/gw || return 1
   go build -tags verif -o /verif/bin/vcheck ./cmd/vcheck || return 1
+  if [ "${1:-}" = "C18" ]; then
+    (cd /repo && go build -o /verif/bin/grits .) || return 1
+  fi
   if [ "${1:-}" = "C13" ]; then
     go build -race -tags verif -o /verif/bin/gw-race ./cmd/gw || return 1
   fi
